@@ -221,6 +221,45 @@ impl Observer for Obs {
                 stats.bump("limited_actions_returned");
             }
         }
+        // withdrawal comes first, LimitReached second: what the machine schedules in response to
+        // LimitReached (the action of the state it moves to) is not withdrawn
+        for mi in 0..n {
+            let mach = &c.cfg.machines[mi];
+            let Some(d) = dl.iter().filter(|d| d.machine == mi).last() else { continue };
+            let k = d.end - 1;
+            let s = &c.steps[k];
+            if k == d.start || !s.live || s.event != Event::LimitReached {
+                continue;
+            }
+            let Some(t) = s.target else { continue };
+            if t == STATE_END || t == STATE_SIGNAL || t == s.from_state {
+                continue;
+            }
+            let Some(a) = mach.states[t].action else { continue };
+            let could = cands[mi].iter().rev().find(|cd| cd.0 == t && cd.3 == stay_id[mi]).map(|cd| cd.1);
+            if could != Some(Some(true)) {
+                continue;
+            }
+            let snap = &c.after.machines[mi];
+            let within_budget = match a {
+                Action::SendPadding { .. } => snap.2 < mach.allowed_padding_packets,
+                Action::BlockOutgoing { .. } => {
+                    let ongoing = if c.after.blocking_active { c.now.saturating_sub(c.after.blocking_started.0) } else { 0 };
+                    snap.4 .0.saturating_add(ongoing) < mach.allowed_blocked_microsec
+                }
+                _ => true,
+            };
+            if !within_budget {
+                continue;
+            }
+            if !c.actions.iter().any(|r| r.machine() == mi && action_matches(&a, r)) {
+                return Err(format!(
+                    "machine {mi}: LimitReached moved it to state {t}, whose action {a:?} is within its limit and budget, but the call returned {:?} for it: the action scheduled in response to LimitReached was withdrawn too",
+                    c.actions.iter().filter(|r| r.machine() == mi).collect::<Vec<_>>()
+                ));
+            }
+            stats.bump("actions_scheduled_by_limit_reached_returned");
+        }
         Ok(engaged)
     }
     fn key(&self, out: &mut String) {
